@@ -1,8 +1,8 @@
 #!/verif/.venv/bin/python
 # Replay of a solver counterexample against the unmodified code (no shims).
-# property=C15 kernel=drift label=k4:modify_compensates_drift
+# property=C15 kernel=eomcfg label=k1:option_is_documented_lightshift
 import sys
 sys.path[:0] = ['/repo' + "/pulser-core", '/repo' + "/pulser-simulation", "/verif"]
 from symx.replay import replay
-sys.exit(replay(check='checks.c15', kernel='drift', shape={'cfg': {'lim': 'R', 'ctrl': ['B']}, 'program': [['enable', 2.0, 0.0, -1.0], ['modify', 1.0, 0.0, 3.0], ['eom_pulse', 0.0], ['disable']], 'custom_buffer': None, 'kmax': 12},
-                assignment={'d2/k': 2, 'buf#1.start': 0, 'buf#1.end': 1, 'buf#2.start': 0, 'buf#2.end': 1}, label='k4:modify_compensates_drift'))
+sys.exit(replay(check='checks.c15', kernel='eomcfg', shape={'cfg': {'lim': 'R', 'ctrl': ['R', 'B'], 'cb': 2.0, 'cr': 0.5}},
+                assignment={'amp_on': '5/1024', 'detuning_on': '1/1024', 'optimal_detuning_off': '-1/1024'}, label='k1:option_is_documented_lightshift'))
